@@ -11,6 +11,8 @@
 -/
 import Gleece.Model.Bounds
 import Gleece.Model.IR
+import Gleece.Properties.Conv
+import Gleece.Generated.ValidationRules
 namespace Gleece.Bounds
 
 /-- **The dialect translation preserves meaning**: a number satisfies the translated 3.1 bounds iff it
@@ -65,3 +67,52 @@ end Gleece.Bounds
 /- The structural part (operations, parameters, bodies, responses, security) is ONE model function for both
    emitters; "both versions agree" on it is therefore not a Lean statement but the conjunction of the C01 / C04 /
    C06 ties of each real document to that function, plus the direct document-vs-document diff of `checkC11`. -/
+
+/-! ### the converter model is the code's `switch` (regenerated tables) -/
+namespace Gleece.Conv
+
+/-- a rule does nothing for a type outside its guard list — for both converters -/
+theorem outside_guard {ν} (P : Parsers ν) (t : Ty) (k : Kind) (v : String) (hk : k ≠ .enum ∧ k ≠ .oneof) (ht : t ∉ guardOf k) :
+    (∀ s, apply30 P t s (k, v) = s) ∧ (∀ s, apply31 P t s (k, v) = s) := by
+  cases k <;> cases t <;> simp_all [guardOf, apply30, apply31, Ty.numeric]
+
+/-- which parser reads the value of each rule, per converter: what `apply30` / `apply31` assume
+    (`P.num` = ParseNumber, `P.uint` = ParseUInteger, `len31` = ParseNonNegativeInteger, `P.bool` = ParseBool) -/
+def modelParser (emitter : String) (k : Kind) : List String :=
+  match k with
+  | .gt | .gte | .lt | .lte => ["ParseNumber"]
+  | .min | .max => [if emitter = "3.0" then "ParseUInteger" else "ParseNonNegativeInteger", "ParseNumber"]
+  | .len | .minItems | .maxItems => [if emitter = "3.0" then "ParseUInteger" else "ParseNonNegativeInteger"]
+  | .uniqueItems => ["ParseBool"]
+  | _ => [""]
+
+/-- **Every row of the regenerated rule table names the parser the model uses for that rule** -/
+theorem parsers_are_modelled :
+    ∀ row ∈ Gleece.Generated.validationRules, (modelParser row.1 (kindOf row.2.1)).contains row.2.2.1 = true := by
+  decide +kernel
+
+/-- … and every rule of the model has its rows in the table (no rule of the model is missing from a converter) -/
+theorem model_rules_in_table :
+    ∀ e ∈ ["3.0", "3.1"], ∀ r ∈ ["email", "uuid", "ip", "ipv4", "ipv6", "hostname", "date", "datetime", "gt", "gte", "lt", "lte", "min", "max",
+        "len", "pattern", "minItems", "maxItems", "uniqueItems", "enum", "oneof"],
+      ∀ p ∈ modelParser e (kindOf r), (Gleece.Generated.validationRules.any fun row => row.1 = e && row.2.1 = r && row.2.2.1 = p) = true := by
+  decide +kernel
+
+/-- no rule of the table is unknown to the model -/
+theorem table_rules_in_model : ∀ row ∈ Gleece.Generated.validationRules, kindOf row.2.1 ≠ .unknown := by
+  decide +kernel
+
+/-- the `switch specType` labels of the member-list rules: 3.0 types members for four scalar types (`members30`),
+    3.1 tags three (`oneof31`) and compares with "string" in `enum` (`enum31`) -/
+def modelSwitch (emitter : String) (k : Kind) : List String × List String :=
+  match k with
+  | .enum => if emitter = "3.0" then ([], ["boolean", "integer", "number", "string"]) else (["string"], [])
+  | .oneof => if emitter = "3.0" then ([], ["boolean", "integer", "number", "string"]) else ([], ["integer", "number", "string"])
+  | k => ((guardOf k).map Ty.name, [])
+
+/-- **Every row of the regenerated guard table is the guard the model uses** (`outside_guard` says what a guard means) -/
+theorem guards_are_modelled :
+    ∀ row ∈ Gleece.Generated.validationGuards, (row.2.2.1, row.2.2.2) = modelSwitch row.1 (kindOf row.2.1) := by
+  decide +kernel
+
+end Gleece.Conv
